@@ -58,6 +58,10 @@
 //! # Panics / aborts
 //! A panic in the code under test (e.g. a failing `assert!`) ends the run with `Status::Panic { tid, msg }`;
 //! all other threads are unwound.  Shim operations executed while unwinding take effect silently.
+//! Code under test that sits below an `extern "C"` frame must not be unwound (the process would abort):
+//! bracket the call with `set_no_unwind(true/false)` — such a thread is parked for ever and its OS thread
+//! leaked when the run is aborted — and call `fail_current_thread(msg)` from the panic hook for a panic
+//! raised inside the bracket (added for C04: `safepoint_slow` is `extern "C"`).
 
 use std::cell::{RefCell, UnsafeCell};
 use std::ops::{Deref, DerefMut};
@@ -194,6 +198,8 @@ enum St {
 struct Th {
     st: St,
     cv: Arc<StdCondvar>,
+    /// see `set_no_unwind`
+    no_unwind: bool,
 }
 
 struct Inner {
@@ -388,7 +394,11 @@ impl Sched {
             g = cv.wait(g).unwrap();
         }
         if g.abort.is_some() {
+            let leak = g.threads[tid].no_unwind;
             drop(g);
+            if leak {
+                park_for_ever();
+            }
             std::panic::resume_unwind(Box::new(SchedAbort));
         }
         g.threads[tid].st = St::Running;
@@ -449,7 +459,16 @@ where
     loop {
         let h = {
             let mut g = sched.inner.lock().unwrap();
-            g.os.pop()
+            // `os[i]` is the OS thread of shim thread i; a thread marked no-unwind is never joined
+            // (it is parked for ever if the run was aborted while it was inside the bracket)
+            let tid = g.os.len().wrapping_sub(1);
+            match g.os.pop() {
+                Some(h) if g.threads[tid].no_unwind => {
+                    drop(h);
+                    continue;
+                }
+                other => other,
+            }
         };
         match h {
             Some(h) => {
@@ -484,7 +503,7 @@ where
     T: Send + 'static,
 {
     let tid = g.threads.len();
-    g.threads.push(Th { st: St::Ready(Pend::Start), cv: Arc::new(StdCondvar::new()) });
+    g.threads.push(Th { st: St::Ready(Pend::Start), cv: Arc::new(StdCondvar::new()), no_unwind: false });
     let sched2 = sched.clone();
     std::thread::Builder::new()
         .stack_size(256 * 1024)
@@ -585,6 +604,41 @@ pub fn yield_now() {
     let (s, me) = ctx();
     let mut g = s.enter(me, Pend::Yield);
     g.log(me, "yield", Obj::None, None, None);
+}
+
+fn park_for_ever() -> ! {
+    loop {
+        std::thread::park();
+    }
+}
+
+/// Mark / unmark the calling thread as "must not be unwound" (it is about to run code under test below
+/// an `extern "C"` frame, through which unwinding aborts the process).  While marked, an aborted run
+/// (deadlock, step limit, panic of another thread) parks this thread for ever instead of unwinding it, and
+/// `run` does not join its OS thread (it is leaked).  Not a scheduling point, no event.
+pub fn set_no_unwind(on: bool) {
+    if !have_ctx() {
+        return;
+    }
+    let (s, me) = ctx();
+    s.inner.lock().unwrap().threads[me].no_unwind = on;
+}
+
+/// For a panic hook: the calling thread panicked inside a `set_no_unwind(true)` bracket.  Ends the run
+/// with `Status::Panic { tid, msg }` like an ordinary panic would, then parks the thread for ever (never
+/// returns, so the unwinding that would abort the process never starts).
+pub fn fail_current_thread(msg: String) -> ! {
+    if have_ctx() {
+        let (s, me) = ctx();
+        let mut g = s.inner.lock().unwrap();
+        if g.abort.is_none() {
+            g.abort = Some(Status::Panic { tid: me, msg });
+        }
+        g.threads[me].st = St::Finished;
+        g.threads[me].no_unwind = true;
+        g.wake_everyone(&s);
+    }
+    park_for_ever()
 }
 
 /// Restrict the calling thread (and every thread it spawns later) to the CPU it is running on.
